@@ -13,6 +13,7 @@ mod c01;
 mod c02;
 mod c04;
 mod c05;
+mod c17;
 mod c07;
 mod c14;
 mod c18;
@@ -62,6 +63,7 @@ fn main() {
                 "C07" => c07::gen(tier, seed),
                 "C18" => c18::gen(tier, seed),
                 "C05" => c05::gen(tier, seed),
+                "C17" => c17::gen(tier, seed),
                 _ => {
                     eprintln!("unknown property {prop}");
                     std::process::exit(2);
